@@ -140,6 +140,7 @@ var Epoch = time.Date(2021, 3, 4, 5, 6, 7, 0, time.UTC).UnixNano()
 type World struct {
 	cfg       Config
 	rng       rng
+	frng      rng
 	tape      []uint32
 	tapePos   int
 	replay    bool
@@ -214,6 +215,7 @@ func Run(cfg Config, script func()) *Result {
 		sig:      1469598103934665603,
 	}
 	w.rng.seed(cfg.Seed)
+	w.frng.seed(cfg.Seed ^ 0xFA1FA1FA1)
 	if cfg.Tape != nil {
 		w.replay = true
 		w.tape = cfg.Tape
@@ -445,6 +447,15 @@ func (w *World) draw(n int, pref func() int) int {
 		return 0
 	}
 	var v int
+	if w.fair {
+		// After the faults-stop mark every choice comes from a dedicated PRNG stream and is neither recorded
+		// nor replayed from the tape: a minimised or perturbed tape can then never turn the fair suffix, under
+		// which bounded-liveness oracles are evaluated, into an unfair one. It stays a pure function of the seed.
+		if pref != nil {
+			return pref() % n
+		}
+		return int(w.frng.next() % uint64(n))
+	}
 	if w.replay {
 		if w.tapePos < len(w.tape) {
 			v = int(w.tape[w.tapePos]) % n
@@ -533,7 +544,7 @@ func (w *World) starved(g *G) bool {
 func (w *World) chooseAmong(els []*G) int {
 	// strategy preference among eligible others
 	if w.fair {
-		return int(w.rng.next() % uint64(len(els)))
+		return int(w.frng.next() % uint64(len(els)))
 	}
 	switch w.cfg.Strategy {
 	case StratPCT:
@@ -676,7 +687,7 @@ func hashStr(s string) uint64 {
 
 func (w *World) wantSwitch(g *G) bool {
 	if w.fair {
-		return w.rng.float() < 0.5
+		return w.frng.float() < 0.5
 	}
 	switch w.cfg.Strategy {
 	case StratPCT:
